@@ -43,15 +43,20 @@ class Interpreter:
         return self.interpret(contents, os.path.basename(filename))
 
     def interpret(self, script, filename, environment=None):
-        savedParent = None
         if environment is None:
             env = self.environment
         else:
+            # the outermost scope of the environment the host hands in is
+            # hooked below this interpreter's session; on a later call with
+            # the same object it is found again by its mark (walking on to the
+            # root would reach the base environment and hook that below the
+            # session: a cycle)
             environment_ = environment
-            while environment_ and environment_.parent:
+            while environment_.parent and not getattr(
+                    environment_, "hostRoot", False):
                 environment_ = environment_.parent
-            if environment_:
-                savedParent = environment_.parent
+            if environment_ is not self.base_environment:
+                environment_.hostRoot = True
                 environment_.withParent(self.environment)
             env = environment
         try:
@@ -81,10 +86,3 @@ class Interpreter:
             raise CklRuntimeError(
                 ValueString("ERROR"), "Maximum recursion depth exceeded"
             )
-        finally:
-            if savedParent:
-                environment_ = environment
-                while environment_ and environment_.parent:
-                    environment_ = environment_.parent
-                if environment_:
-                    environment_.withParent(savedParent)
